@@ -245,15 +245,24 @@ Proof.
   intros Hv Hk k2 x. rewrite bt_get_insert. destruct (Z.eqb_spec k2 k); [intros [= <-]; subst; auto|apply Hv].
 Qed.
 
+(* every entry of the partial tree of an honest run is the tree's node value *)
+Definition ptmsound (m : bmap D) : Prop := forall k x, bt_get k m = Some x -> x = hval t k.
+
+Lemma ptmsound_insert m k : ptmsound m -> ptmsound (bt_insert k (hval t k) m).
+Proof.
+  intros Hm k2 x. rewrite bt_get_insert. destruct (Z.eqb_spec k2 k); [intros [= <-]; subst; auto|apply Hm].
+Qed.
+
 Lemma gstep_ok a s v ptm :
   2 <= a < N -> vsound v -> bt_get a v <> None -> s = hval t (Z.lxor a 1) ->
-  exists ptm1, gstep a s v ptm = Ok (bt_insert (a / 2) (hval t (a / 2)) v, ptm1, a / 2).
+  exists ptm1, gstep a s v ptm = Ok (bt_insert (a / 2) (hval t (a / 2)) v, ptm1, a / 2) /\
+               (ptmsound ptm -> ptmsound ptm1).
 Proof.
   intros Ha Hv Hg ->. unfold Merkle.gstep. destruct (bt_get a v) as [node|] eqn:E; [|congruence].
   apply Hv in E. destruct E as [_ ->]. rewrite shiftr1.
   pose proof Npos.
   assert (C := climb_step D d0 merge t d WF Hd a ltac:(lia)).
-  destruct (Z.land a 1 =? 0); cbn [negb]; rewrite C; eauto.
+  destruct (Z.land a 1 =? 0); cbn [negb]; rewrite C; (eexists; split; [reflexivity|]; intros Hs; apply ptmsound_insert, ptmsound_insert; assumption).
 Qed.
 
 Lemma scan_complete : forall n I i nodes nodes' next NF v ptm, (length I <= n)%nat ->
@@ -263,12 +272,12 @@ Lemma scan_complete : forall n I i nodes nodes' next NF v ptm, (length I <= n)%n
   vsound v -> (forall a, In a I -> bt_get a v <> None) ->
   exists v' ptm', gscan NF I i v (map zlen nodes) ptm = Ok (v', map zlen nodes', ptm', next) /\
     vsound v' /\ (forall k, bt_get k v <> None -> bt_get k v' <> None) /\
-    (forall b, In b next -> bt_get b v' <> None).
+    (forall b, In b next -> bt_get b v' <> None) /\ (ptmsound ptm -> ptmsound ptm').
 Proof.
   induction n as [|n IH]; intros I i nodes nodes' next NF v ptm Hn E HF Hi Hr Hv Hk.
-  - destruct I; [|simpl in Hn; lia]. cbn in E. injection E as <- <-. cbn. exists v, ptm. split; [reflexivity|]. split; [assumption|]. split; [auto|intros ? []].
+  - destruct I; [|simpl in Hn; lia]. cbn in E. injection E as <- <-. cbn. exists v, ptm. split; [reflexivity|]. split; [assumption|]. split; [auto|]. split; [intros ? []|auto].
   - destruct I as [|a rest].
-    { cbn in E. injection E as <- <-. cbn. exists v, ptm. split; [reflexivity|]. split; [assumption|]. split; [auto|intros ? []]. }
+    { cbn in E. injection E as <- <-. cbn. exists v, ptm. split; [reflexivity|]. split; [assumption|]. split; [auto|]. split; [intros ? []|auto]. }
     assert (Ha : 2 <= a < N) by (apply Hr; left; reflexivity).
     rewrite pb_scan_unfold in E. rewrite gscan_unfold. destruct (merged a rest) eqn:Em.
     + destruct (merged_inv _ _ Em) as (rest' & ->). cbn [tl] in *.
@@ -276,11 +285,11 @@ Proof.
       assert (Hs : In (Z.lxor a 1) (a :: Z.lxor a 1 :: rest')) by (right; left; reflexivity).
       destruct (bt_get (Z.lxor a 1) v) as [s|] eqn:Es; [|apply Hk in Hs; congruence].
       apply Hv in Es. destruct Es as [_ ->].
-      destruct (gstep_ok a (hval t (Z.lxor a 1)) v ptm Ha Hv (Hk a (or_introl eq_refl)) eq_refl) as (ptm1 & Eg).
+      destruct (gstep_ok a (hval t (Z.lxor a 1)) v ptm Ha Hv (Hk a (or_introl eq_refl)) eq_refl) as (ptm1 & Eg & Hs1).
       rewrite Eg. cbn [bind].
       assert (Hv1 : vsound (bt_insert (a / 2) (hval t (a / 2)) v)).
       { apply vsound_insert; [assumption|]. pose proof (Z.div_mod a 2 ltac:(lia)). pose proof (Z.mod_pos_bound a 2 ltac:(lia)). lia. }
-      destruct (IH rest' (i + 2) nodes nodesF next' NF (bt_insert (a / 2) (hval t (a / 2)) v) ptm1 ltac:(simpl in Hn; lia) E1 HF ltac:(lia)) as (v' & ptm' & Eg2 & Hv' & Hk' & Hn').
+      destruct (IH rest' (i + 2) nodes nodesF next' NF (bt_insert (a / 2) (hval t (a / 2)) v) ptm1 ltac:(simpl in Hn; lia) E1 HF ltac:(lia)) as (v' & ptm' & Eg2 & Hv' & Hk' & Hn' & Hs').
       { intros a' Ha'. apply Hr. right. right. assumption. }
       { exact Hv1. }
       { intros a' Ha'. rewrite bt_get_insert. destruct (a' =? a / 2); [discriminate|]. apply Hk. right. right. assumption. }
@@ -288,6 +297,7 @@ Proof.
       { rewrite shiftr1, lxor1_div2 by lia. reflexivity. }
       split; [assumption|]. split.
       { intros k Hk0. apply Hk'. rewrite bt_get_insert. destruct (k =? a / 2); [discriminate|assumption]. }
+      split; [|intros Hs0; apply Hs', Hs1; assumption].
       intros b [<-|Hb]; [|apply Hn'; assumption].
       apply Hk'. rewrite shiftr1, lxor1_div2 by lia. rewrite bt_get_insert_same. discriminate.
     + apply bind_Ok in E. destruct E as (x & Ex & E). apply bind_Ok in E. destruct E as (nodes1 & Ep & E).
@@ -311,11 +321,11 @@ Proof.
       { replace (zlen nd + 1) with (zlen (nd ++ [hval t (Z.lxor a 1)])) by (rewrite zlen_app; reflexivity).
         apply upd_map. assumption. }
       rewrite Eu2. cbn [bind].
-      destruct (gstep_ok a (hval t (Z.lxor a 1)) v ptm Ha Hv (Hk a (or_introl eq_refl)) eq_refl) as (ptm1 & Eg).
+      destruct (gstep_ok a (hval t (Z.lxor a 1)) v ptm Ha Hv (Hk a (or_introl eq_refl)) eq_refl) as (ptm1 & Eg & Hs1).
       rewrite Eg. cbn [bind].
       assert (Hv1 : vsound (bt_insert (a / 2) (hval t (a / 2)) v)).
       { apply vsound_insert; [assumption|]. pose proof (Z.div_mod a 2 ltac:(lia)). pose proof (Z.mod_pos_bound a 2 ltac:(lia)). lia. }
-      destruct (IH rest (i + 1) nodes1 nodesF next' NF (bt_insert (a / 2) (hval t (a / 2)) v) ptm1 ltac:(simpl in Hn; lia) E1 HF ltac:(lia)) as (v' & ptm' & Eg2 & Hv' & Hk' & Hn').
+      destruct (IH rest (i + 1) nodes1 nodesF next' NF (bt_insert (a / 2) (hval t (a / 2)) v) ptm1 ltac:(simpl in Hn; lia) E1 HF ltac:(lia)) as (v' & ptm' & Eg2 & Hv' & Hk' & Hn' & Hs').
       { intros a' Ha'. apply Hr. right. assumption. }
       { exact Hv1. }
       { intros a' Ha'. rewrite bt_get_insert. destruct (a' =? a / 2); [discriminate|]. apply Hk. right. assumption. }
@@ -323,6 +333,7 @@ Proof.
       { rewrite shiftr1, lxor1_div2 by lia. reflexivity. }
       split; [assumption|]. split.
       { intros k Hk0. apply Hk'. rewrite bt_get_insert. destruct (k =? a / 2); [discriminate|assumption]. }
+      split; [|intros Hs0; apply Hs', Hs1; assumption].
       intros b [<-|Hb]; [|apply Hn'; assumption].
       apply Hk'. rewrite shiftr1, lxor1_div2 by lia. rewrite bt_get_insert_same. discriminate.
 Qed.
@@ -333,10 +344,10 @@ Lemma levels_complete : forall (k : nat) I nodes NF v ptm,
   (forall a, In a I -> 2 ^ Z.of_nat k <= a < 2 ^ (Z.of_nat k + 1)) -> 2 ^ (Z.of_nat k + 1) <= N ->
   vsound v -> (forall a, In a I -> bt_get a v <> None) ->
   exists v' ptm', glevels k NF I v (map zlen nodes) ptm = Ok (v', map zlen NF, ptm') /\ vsound v' /\
-                  (I <> [] -> bt_get 1 v' <> None).
+                  (I <> [] -> bt_get 1 v' <> None) /\ (ptmsound ptm -> ptmsound ptm').
 Proof.
   induction k as [|k IH]; intros I nodes NF v ptm E Hr HN Hv Hk.
-  - cbn in E. injection E as <-. cbn. exists v, ptm. split; [reflexivity|]. split; [assumption|].
+  - cbn in E. injection E as <-. cbn. exists v, ptm. split; [reflexivity|]. split; [assumption|]. split; [|auto].
     intros Hne. destruct I as [|a r]; [congruence|]. specialize (Hr a (or_introl eq_refl)). cbn in Hr.
     assert (a = 1) by lia. subst a. apply Hk. left. reflexivity.
   - cbn [Merkle.pb_levels] in E. cbn [Merkle.glevels]. rewrite Nat2Z.inj_succ in *. unfold Z.succ in *.
@@ -345,18 +356,19 @@ Proof.
     apply bind_Ok in E. destruct E as ([nodes1 next] & E1 & E2).
     pose proof (pb_levels_mono _ _ _ _ E2) as F2.
     pose proof (pb_scan_inv (length I) I 0 nodes nodes1 next (le_n _) E1) as (_ & _ & P & Pne).
-    destruct (scan_complete (length I) I 0 nodes nodes1 next NF v ptm (le_n _) E1 F2 ltac:(lia)) as (v1 & ptm1 & Eg & Hv1 & Hk1 & Hn1).
+    destruct (scan_complete (length I) I 0 nodes nodes1 next NF v ptm (le_n _) E1 F2 ltac:(lia)) as (v1 & ptm1 & Eg & Hv1 & Hk1 & Hn1 & Hs1).
     { intros a Ha. apply Hr in Ha. lia. }
     { assumption. }
     { assumption. }
     rewrite Eg. cbn [bind].
-    destruct (IH next nodes1 NF v1 ptm1 E2) as (v' & ptm' & Eg2 & Hv' & H1).
+    destruct (IH next nodes1 NF v1 ptm1 E2) as (v' & ptm' & Eg2 & Hv' & H1 & Hs').
     + intros b Hb. apply P in Hb. destruct Hb as (a & Ha & ->). apply parent_range.
       replace (Z.of_nat k + 2) with (Z.of_nat k + 1 + 1) by lia. apply Hr. assumption.
     + etransitivity; [|exact HN]. apply pow2_le_mono. lia.
     + assumption.
     + assumption.
-    + exists v', ptm'. split; [assumption|]. split; [assumption|]. intros Hne. apply H1. apply Pne. assumption.
+    + exists v', ptm'. split; [assumption|]. split; [assumption|].
+      split; [intros Hne; apply H1; apply Pne; assumption|intros Hs0; apply Hs', Hs1; assumption].
 Qed.
 
 (* ---------------------------------------------------------------- first loops *)
@@ -474,10 +486,10 @@ Lemma gfirst_ok : forall norm s v ptm NFr,
     gfirst p imap N norm s v ptm =
       Ok (v', map (fun e => zlen (miss e)) norm, ptm', map (fun e => (e + N) / 2) norm) /\
     vsound v' /\ (forall k, bt_get k v <> None -> bt_get k v' <> None) /\
-    (forall e, In e norm -> bt_get ((e + N) / 2) v' <> None).
+    (forall e, In e norm -> bt_get ((e + N) / 2) v' <> None) /\ (ptmsound ptm -> ptmsound ptm').
 Proof.
   induction norm as [|e rest IH]; intros s v ptm NFr Hsk Hs HF Hr Hv.
-  - cbn. exists v, ptm. split; [reflexivity|]. split; [assumption|]. split; [auto|intros ? []].
+  - cbn. exists v, ptm. split; [reflexivity|]. split; [assumption|]. split; [auto|]. split; [intros ? []|auto].
   - destruct NFr as [|nd NFr']; [inversion HF|]. assert (Hp : prefix (miss e) nd) by (inversion HF; assumption).
     assert (HF' : Forall2 (fun e nd => prefix (miss e) nd) rest NFr') by (inversion HF; assumption).
     apply skipn_cons_nth in Hsk. destruct Hsk as [En Hsk'].
@@ -488,7 +500,7 @@ Proof.
     destruct (IH (s + 1) (bt_insert ((e + N) / 2) (hval t ((e + N) / 2)) v)
                  (bt_insert ((e + N) / 2) (hval t ((e + N) / 2))
                     (bt_insert (Z.lxor (e + N) 1) (leaf (e + 1)) (bt_insert (e + N) (leaf e) ptm))) NFr')
-      as (v' & ptm' & Eg & Hv' & Hk' & Hn').
+      as (v' & ptm' & Eg & Hv' & Hk' & Hn' & Hs').
     + replace (Z.to_nat (s + 1)) with (S (Z.to_nat s)) by lia. assumption.
     + lia.
     + assumption.
@@ -496,7 +508,17 @@ Proof.
     + apply vsound_insert; [assumption|lia].
     + rewrite Eg. cbn [bind]. exists v', ptm'. split; [reflexivity|]. split; [assumption|]. split.
       * intros k Hk0. apply Hk'. rewrite bt_get_insert. destruct (k =? (e + N) / 2); [discriminate|assumption].
-      * intros e' [<-|He']; [|apply Hn'; assumption]. apply Hk'. rewrite bt_get_insert_same. discriminate.
+      * split; [intros e' [<-|He']; [|apply Hn'; assumption]; apply Hk'; rewrite bt_get_insert_same; discriminate|].
+        intros Hs0. apply Hs'. apply ptmsound_insert.
+        assert (Hx : Z.lxor (e + N) 1 = e + N + 1).
+        { apply lxor1_even; [pose proof Npos; lia|]. pose proof Neven. pose proof Npos.
+          pose proof (Z.div_mod e 2 ltac:(lia)). pose proof (Z.div_mod N 2 ltac:(lia)).
+          replace (e + N) with (0 + (e / 2 + N / 2) * 2) by lia. rewrite Z.mod_add by lia. reflexivity. }
+        rewrite Hx.
+        replace (leaf (e + 1)) with (hval t (e + N + 1)) by (rewrite (hval_leaf D d0 merge t d) by (assumption || (fold N; lia)); fold N; unfold leaf; f_equal; lia).
+        apply ptmsound_insert.
+        replace (leaf e) with (hval t (e + N)) by (rewrite (hval_leaf D d0 merge t d) by (assumption || (fold N; lia)); fold N; unfold leaf; f_equal; lia).
+        apply ptmsound_insert. assumption.
 Qed.
 
 End First.
@@ -511,12 +533,15 @@ Proof.
   destruct (Z.leb_spec N 0); [lia|]. unfold N. rewrite Z.log2_pow2 by lia. reflexivity.
 Qed.
 
-Theorem batch_complete_tree : forall indexes,
+(* prove_batch succeeds and the verification core (shared by get_root and into_paths) recomputes the
+   root on its result, whatever the initial partial tree; an honest partial tree stays honest *)
+Theorem batch_complete_core : forall indexes,
   indexes <> [] -> zlen indexes <= 255 -> NoDup indexes -> (forall i, In i indexes -> 0 <= i < N) ->
   exists p, mt_prove_batch t indexes = Ok p /\ bp_depth p = Z.of_nat d /\
     length (bp_leaves p) = length indexes /\
     (forall j i, nth_error indexes j = Some i -> nth_error (bp_leaves p) j = Some (leaf i)) /\
-    get_root p indexes = Ok (hval t 1).
+    (forall ptm0, exists v ptm, gcore p indexes ptm0 = Ok (v, ptm) /\ bt_get 1 v = Some (hval t 1) /\
+                                (ptmsound ptm0 -> ptmsound ptm)).
 Proof.
   intros indexes Hne Hlen ND Hr. pose proof Npos. pose proof Neven as HNe. pose proof Nsmall.
   pose proof (wf_d _ _ _ _ _ WF) as Hd1.
@@ -561,18 +586,13 @@ Proof.
   { intros j i Hj. rewrite <- (Nat2Z.id j) at 1. apply (PLF i (Z.of_nat j)).
     - apply IM. split; [lia|]. rewrite Nat2Z.id. assumption.
     - left. apply normalize_In. exists i. split; [apply nth_error_In in Hj; assumption|reflexivity]. }
-  (* get_root on the produced proof *)
-  unfold Merkle.get_root. rewrite match_nonempty by assumption. unfold max_paths.
-  destruct (Z.ltb_spec 255 (zlen indexes)); [lia|]. cbn [bp_leaves].
-  replace (zlen indexes =? zlen LF) with true by (symmetry; apply Z.eqb_eq; unfold zlen; lia). cbn [negb].
-  unfold Merkle.gcore. cbn [bp_depth bp_nodes bp_leaves]. rewrite Hmod. rewrite Emi. cbn [bind]. fold norm.
+  (* the verification core on the produced proof *)
+  intros ptm0.
   pose proof (pb_levels_mono _ _ _ _ Epl) as Fpl.
   assert (Hlen0 : length NFin = length norm).
   { apply Forall2_len in Fpl. unfold nodes0 in Fpl. rewrite map_length in Fpl. lia. }
-  replace (zlen norm =? zlen NFin) with true by (symmetry; apply Z.eqb_eq; unfold zlen; lia). cbn [negb].
-  fold N.
-  destruct (gfirst_ok indexes imap IM LF NFin norm LLF) with (norm := norm) (s := 0) (v := @nil (Z * D)) (ptm := @nil (Z * D)) (NFr := NFin)
-    as (v1 & ptm1 & Egf & Hv1 & _ & Hk1).
+  destruct (gfirst_ok indexes imap IM LF NFin norm LLF) with (norm := norm) (s := 0) (v := @nil (Z * D)) (ptm := ptm0) (NFr := NFin)
+    as (v1 & ptm1 & Egf & Hv1 & _ & Hk1 & Hs1).
   { intros k j Ek Hin. apply PLF; [assumption|]. left. assumption. }
   { reflexivity. }
   { lia. }
@@ -580,19 +600,40 @@ Proof.
     induction nm as [|e r IH]; intros NFin Fpl; inversion Fpl; subst; constructor; auto. }
   { exact Hnorm. }
   { intros k x Hk0. discriminate. }
-  replace {| bp_leaves := LF; bp_nodes := NFin; bp_depth := Z.of_nat d |}
-    with {| bp_leaves := LF; bp_nodes := NFin; bp_depth := Z.of_nat d mod 256 |} in Egf by (rewrite Hmod; reflexivity).
-  rewrite Hmod in Egf. rewrite Egf. cbn [bind].
-  replace (map (fun e => zlen (miss imap e)) norm) with (map zlen nodes0) by (unfold nodes0; rewrite map_map; reflexivity).
-  fold next.
-  destruct (levels_complete d' next nodes0 NFin v1 ptm1 Epl Hnext HNl Hv1) as (v' & ptm' & Egl & Hv' & Hroot1).
+  destruct (levels_complete d' next nodes0 NFin v1 ptm1 Epl Hnext HNl Hv1) as (v' & ptm' & Egl & Hv' & Hroot1 & Hs2).
   { intros a Ha. unfold next in Ha. apply in_map_iff in Ha. destruct Ha as (e & <- & He). apply Hk1. assumption. }
-  replace (Z.to_nat (Z.of_nat d - 1)) with d' by lia.
-  rewrite Egl. cbn [bind]. rewrite all_consumed_map. cbn [negb bind].
+  exists v', ptm'. split.
+  { unfold Merkle.gcore. cbn [bp_depth bp_nodes bp_leaves]. rewrite Hmod. rewrite Emi. cbn [bind]. fold norm.
+    replace (zlen norm =? zlen NFin) with true by (symmetry; apply Z.eqb_eq; unfold zlen; lia). cbn [negb].
+    fold N.
+    replace {| bp_leaves := LF; bp_nodes := NFin; bp_depth := Z.of_nat d |}
+      with {| bp_leaves := LF; bp_nodes := NFin; bp_depth := Z.of_nat d mod 256 |} in Egf by (rewrite Hmod; reflexivity).
+    rewrite Hmod in Egf. rewrite Egf. cbn [bind].
+    replace (map (fun e => zlen (miss imap e)) norm) with (map zlen nodes0) by (unfold nodes0; rewrite map_map; reflexivity).
+    fold next. replace (Z.to_nat (Z.of_nat d - 1)) with d' by lia.
+    rewrite Egl. cbn [bind]. rewrite all_consumed_map. reflexivity. }
+  split; [|intros Hs0; apply Hs2, Hs1; assumption].
   assert (Hnn : next <> []).
   { unfold next. pose proof (normalize_nonempty indexes Hne) as Hnz. fold norm in Hnz. destruct norm; [congruence|discriminate]. }
   specialize (Hroot1 Hnn). destruct (bt_get 1 v') as [r|] eqn:Er; [|congruence].
   apply Hv' in Er. destruct Er as [_ ->]. reflexivity.
+Qed.
+
+Theorem batch_complete_tree : forall indexes,
+  indexes <> [] -> zlen indexes <= 255 -> NoDup indexes -> (forall i, In i indexes -> 0 <= i < N) ->
+  exists p, mt_prove_batch t indexes = Ok p /\ bp_depth p = Z.of_nat d /\
+    length (bp_leaves p) = length indexes /\
+    (forall j i, nth_error indexes j = Some i -> nth_error (bp_leaves p) j = Some (leaf i)) /\
+    get_root p indexes = Ok (hval t 1).
+Proof.
+  intros indexes Hne Hlen ND Hr.
+  destruct (batch_complete_core indexes Hne Hlen ND Hr) as (p & E & Hdep & HL & HLv & Hc).
+  exists p. split; [assumption|]. split; [assumption|]. split; [assumption|]. split; [assumption|].
+  destruct (Hc []) as (v & ptm & Eg & Er & _).
+  unfold Merkle.get_root. rewrite match_nonempty by assumption. unfold max_paths.
+  destruct (Z.ltb_spec 255 (zlen indexes)); [lia|].
+  replace (zlen indexes =? zlen (bp_leaves p)) with true by (symmetry; apply Z.eqb_eq; unfold zlen; lia). cbn [negb].
+  rewrite Eg. cbn [bind]. rewrite Er. reflexivity.
 Qed.
 
 End Batch.
